@@ -94,6 +94,12 @@ def run(tier='quick'):
                         'to a narrower one in a decoder or its helpers is dominated by a test of both bounds of the '
                         'target type (a value the public type cannot hold is rejected, not reduced modulo 2^32)', floor=2)
     decoder_narrowing(prog, chk, L7)
+    L8 = chk.rule('L8', 'the library reads what it writes and what an independent encoder of the same content writes: '
+                        'every value test by which a decoder rejects a blob (a marker count against a constant, the '
+                        'order of neighbouring markers) is matched by the encoder, and the two draw the line at the same '
+                        'count (rule S9 of C03)', floor=2)
+    from . import c03 as _c03
+    _c03.domain_symmetry(prog, chk, L8, codec.all_grammars(prog))
     return chk.finish(
         'Static comparison of the byte layout the code implements with an independent declarative layout '
         'table: the bit/byte mapping of the 14 primitives is derived from their AST, the ordered '
